@@ -72,6 +72,95 @@ def native_group(contract, name, conc, notes):
     return {"inputs": conc, "reproduced": True if failed else None, "detail": detail}
 
 
+# ---------------------------------------------------------------------------
+# Ownership of EtherCat.next_logical_addr (a frame condition over the whole
+# package): the class invariant "a multiple of 0x1000 that only grows" - on
+# which the disjointness of the windows of different sync groups rests - is
+# proved for __init__ and get_fmmu_addr; no other function may assign the field.
+def is_master_class(module, cls):
+    import importlib
+    from ebpfcat.ethercat import EtherCat
+    try:
+        c = getattr(importlib.import_module("ebpfcat." + module), cls)
+        return isinstance(c, type) and issubclass(c, EtherCat)
+    except Exception:      # noqa
+        return True
+
+
+def field_writers(field):
+    import ast
+    import glob
+    import os
+    out = []
+    for path in sorted(glob.glob(os.path.join(R.REPO, "ebpfcat", "*.py"))):
+        if path.endswith("_test.py"):
+            continue
+        tree = ast.parse(open(path).read())
+
+        def visit(node, ctx):
+            for c in ast.iter_child_nodes(node):
+                if isinstance(c, ast.ClassDef):
+                    visit(c, ctx + [c.name])
+                elif isinstance(c, (ast.FunctionDef, ast.AsyncFunctionDef)):
+                    visit(c, ctx + [c.name])
+                else:
+                    targets = []
+                    if isinstance(c, ast.Assign):
+                        targets = c.targets
+                    elif isinstance(c, (ast.AugAssign, ast.AnnAssign)):
+                        targets = [c.target]
+                    elif isinstance(c, ast.Call) and getattr(c.func, "id", None) == "setattr" and len(c.args) >= 2 \
+                            and isinstance(c.args[1], ast.Constant) and c.args[1].value == field:
+                        out.append((os.path.basename(path), ".".join(ctx), c.lineno))
+                    for t in targets:
+                        for n in ast.walk(t):
+                            if isinstance(n, ast.Attribute) and n.attr == field:
+                                if isinstance(n.value, ast.Name) and n.value.id == "self" and ctx \
+                                        and not is_master_class(os.path.basename(path)[:-3], ctx[0]):
+                                    continue      # a field of the same name of another class
+                                out.append((os.path.basename(path), ".".join(ctx), c.lineno))
+                    visit(c, ctx)
+        visit(tree, [])
+    return out
+
+
+def native_writer(where):
+    """call the unexpected writer on a real master that has handed out windows"""
+    import asyncio
+    import ebpfcat.ethercat as E
+    fname, qual, line = where
+    parts = qual.split(".")
+    detail = f"{fname}:{line} in {qual} assigns next_logical_addr"
+    if len(parts) != 2 or not hasattr(E, parts[0]):
+        return {"inputs": list(where), "reproduced": None, "detail": detail + " (not replayed)"}
+    cls = getattr(E, parts[0])
+    ec = object.__new__(cls)
+    ec.next_logical_addr = 0
+    first = ec.get_fmmu_addr()
+    second = ec.get_fmmu_addr()
+
+    class Loop:
+        def __getattr__(self, n):
+            async def f(*a, **k):
+                return None
+            return f
+    saved = E.get_event_loop
+    E.get_event_loop = lambda: Loop()
+    try:
+        r = getattr(ec, parts[1])()
+        if asyncio.iscoroutine(r):
+            asyncio.run(r)
+    except Exception as e:      # noqa
+        detail += f"; calling it raised {type(e).__name__}: {e}"
+    finally:
+        E.get_event_loop = saved
+    third = ec.get_fmmu_addr()
+    bad = third <= second
+    return {"inputs": list(where), "reproduced": bad,
+            "detail": detail + f"; real master: windows {first:#x}, {second:#x} handed out, then {qual}(), then "
+                      f"get_fmmu_addr() returns {third:#x}" + (" - a window already in use" if bad else "")}
+
+
 def run(tier, seed):
     from contracts import c18_alloc as S
     rep = R.Report("C18", tier, seed)
@@ -82,7 +171,9 @@ def run(tier, seed):
     rep.assume("a terminal's process-data sizes are non-negative integers or None (no process data); the declared "
                "input size of an Aerotech-style terminal is positive")
     rep.assume("EtherCat.next_logical_addr is a non-negative multiple of 0x1000 (class invariant: set to 0 by "
-               "__init__, written only by get_fmmu_addr, which preserves it - proved)")
+               "__init__, written only by get_fmmu_addr, which preserves it - the preservation is proved, the "
+               "'written only by' is a syntactic frame condition checked over the package's source; writes through "
+               "__dict__ or from outside the package are not seen)")
     rep.assume("ParallelEtherCat.get_fmmu_addr (lock file based) is under C23, not here")
     groups = S.GROUPS_THOROUGH if tier == "thorough" else S.GROUPS_QUICK
     rep.bound("SyncGroupBase.allocate is proved for groups of " +
@@ -106,6 +197,16 @@ def run(tier, seed):
             api.verify(c, rep, replay=lambda n, i, nt, c=c: native_group(c, n, i, nt))
     finally:
         S.uninstall()
+    from vc import smt
+    allowed = {"EtherCat.__init__", "EtherCat.get_fmmu_addr"}
+    ws = field_writers("next_logical_addr")
+    extra = [w for w in ws if w[1] not in allowed]
+    rep.obligation("EtherCat.next_logical_addr.written_only_by[__init__, get_fmmu_addr]",
+                   smt.Result(smt.PROVED if not extra and ws else smt.REFUTED, "ast-scan", 0.0, None,
+                              f"writers found: {ws}"),
+                   func="ebpfcat package", text="frame condition: no function other than EtherCat.__init__ and "
+                   "EtherCat.get_fmmu_addr assigns next_logical_addr (the windows of earlier sync groups stay "
+                   "reserved)", replay=(lambda m: native_writer(extra[0])) if extra else None)
     import inspect
     from ebpfcat.ebpfcat import EBPFTerminal
     from ebpfcat.terminals import AerotechBase
